@@ -80,6 +80,100 @@ fn li_family(rng: &mut Rng) -> Vec<Stmt> {
     v
 }
 
+/// Data lists that continue on the following lines (`.word 1, 2` / `3, 4`), rewritten by what the statement
+/// lists as meaning-preserving: a comment behind the first line, a comment line or a blank line between
+/// the lines, different indentation of the continuation. Only layouts of the *continued* list are compared
+/// with each other (whether a list may continue at all is not C13's business).
+fn data_list_case(rng: &mut Rng, acc: &mut Acc) {
+    let dirs = [".word", ".half", ".byte"];
+    let n_lists = 1 + rng.below(3);
+    // each list: directive, label, first-line values, continuation lines
+    let lists: Vec<(String, &str, Vec<i32>, Vec<Vec<i32>>)> = (0..n_lists)
+        .map(|k| {
+            let first: Vec<i32> = (0..1 + rng.below(3)).map(|_| rng.range(0, 99) as i32).collect();
+            let cont: Vec<Vec<i32>> = (0..1 + rng.below(2)).map(|_| (0..1 + rng.below(3)).map(|_| rng.range(0, 99) as i32).collect()).collect();
+            (format!("tbl_{k}"), dirs[rng.below(3)], first, cont)
+        })
+        .collect();
+    let unused = rng.chance(0.5);
+    let data_first = rng.chance(0.5);
+    let code = {
+        let mut c = vec!["main:".to_string(), "    la t0, tbl_0".into(), "    lw a0, 0(t0)".into(), "    li a7, 1".into(), "    ecall".into()];
+        if unused {
+            c.push("    li t3, 5".into());
+        }
+        c.push("    li a7, 10".into());
+        c.push("    ecall".into());
+        c
+    };
+    // style: 0 = plain, 1 = comment behind the directive line, 2 = comment line between, 3 = blank line between,
+    // 4 = comment behind every line, 5 = continuation not indented
+    let render = |style: u32| -> String {
+        let mut out = vec!["# data lists".to_string()];
+        let data = |out: &mut Vec<String>| {
+            out.push(".data".into());
+            for (label, dir, first, cont) in &lists {
+                let f = first.iter().map(i32::to_string).collect::<Vec<_>>().join(", ");
+                out.push(format!("{label}: {dir} {f}{}", if style == 1 || style == 4 { "  # first values" } else { "" }));
+                for c in cont {
+                    if style == 2 {
+                        out.push("    # more values".into());
+                    }
+                    if style == 3 {
+                        out.push(String::new());
+                    }
+                    let v = c.iter().map(i32::to_string).collect::<Vec<_>>().join(", ");
+                    out.push(format!("{}{v}{}", if style == 5 { "" } else { "        " }, if style == 4 { " # more" } else { "" }));
+                }
+            }
+        };
+        if data_first {
+            data(&mut out);
+            out.push(".text".into());
+            out.extend(code.iter().cloned());
+        } else {
+            out.extend(code.iter().cloned());
+            data(&mut out);
+        }
+        out.join("\n") + "\n"
+    };
+    let keys = |text: &str| -> Result<std::collections::BTreeMap<(String, String), usize>, String> {
+        let a = analyze(text).map_err(|e| format!("{} {}", e.site(), e.msg))?;
+        let lines: Vec<&str> = text.lines().collect();
+        let mut m = std::collections::BTreeMap::new();
+        for d in a.all_diags() {
+            let src = lines.get(d.span.start.line).map(|l| l.split('#').next().unwrap_or("").trim().to_string()).unwrap_or_default();
+            *m.entry((if d.code.is_empty() { d.title.clone() } else { d.code.clone() }, src)).or_insert(0) += 1;
+        }
+        Ok(m)
+    };
+    let base = render(0);
+    let Ok(k0) = keys(&base) else { return };
+    acc.count("base_diagnostics", k0.len() as u64);
+    for (style, name) in [(1, "comment-behind-the-directive-line"), (2, "comment-line-between"), (3, "blank-line-between"), (4, "comment-behind-every-line"), (5, "continuation-not-indented")] {
+        let t1 = render(style);
+        acc.evaluations += 1;
+        acc.count("data_list_pairs", 1);
+        acc.nontrivial.insert(hash64(&t1));
+        match keys(&t1) {
+            Err(e) => acc.violation("C13|data-list|panic".to_string(), format!("{name}: the analysis panics: {e}"), json!({"base": base, "rewritten": t1})),
+            Ok(k1) => {
+                if k0 == k1 {
+                    acc.count("pairs_equal", 1);
+                } else {
+                    let d = k0.keys().chain(k1.keys()).find(|k| k0.get(*k) != k1.get(*k)).cloned().unwrap_or_default();
+                    let dir = if k1.get(&d).copied().unwrap_or(0) > k0.get(&d).copied().unwrap_or(0) { "gained" } else { "lost" };
+                    acc.violation(
+                        format!("C13|data-list|{name}|{dir}"),
+                        format!("a data list that continues on the next line: {name} changes the diagnostics: `{}` on `{}` is {dir}", d.0, d.1),
+                        json!({"base": base, "rewritten": t1}),
+                    );
+                }
+            }
+        }
+    }
+}
+
 fn li_expansion_case(rng: &mut Rng, acc: &mut Acc) {
     let stmts = li_family(rng);
     // build one variant: `expand(k)` says whether the k-th Li is written as lui (+ addi)
@@ -260,6 +354,14 @@ pub fn run(ctx: &Ctx) -> i32 {
         li_expansion_case(&mut rng, &mut acc);
     }
     rep.acc.merge(acc);
+    // ---- layouts of data lists that continue over several lines
+    let mut acc = Acc::new();
+    let mut rng = Rng::derive(ctx.seed, 13_600, 0);
+    for _ in 0..ctx.tier.pick(100, 2000) {
+        data_list_case(&mut rng, &mut acc);
+    }
+    rep.acc.merge(acc);
+    rep.require("data_list_pairs", 100);
     rep.require("li_expansion_pairs", 100);
     rep.require("pairs_equal", 500);
     rep.require("base_diagnostics", 50);
